@@ -22,7 +22,7 @@ if grep -E '^(FAIL|---\s*FAIL|panic:)' $LOG.suite >/dev/null; then echo "$P-$N: 
 DIR=$(sed -n 1p $OUT/demo$N.where | tr -d '\r'); CMD=$(sed -n 2p $OUT/demo$N.where | tr -d '\r')
 cp $OUT/demo${N}_test.go $DIR/zz_seed_demo${N}_test.go
 ( eval "$CMD" ) >$LOG.demo_change 2>&1; RC1=$?
-git checkout -- . ; # revert source change, keep (untracked) demo
+git apply -R $OUT/change$N.diff >>$LOG 2>&1 || git checkout -- . ; # revert the source change (also files the patch added), keep the (untracked) demo
 ( eval "$CMD" ) >$LOG.demo_pristine 2>&1; RC2=$?
 if [ $RC1 -eq 0 ]; then echo "$P-$N: DEMO-PASSES-WITH-CHANGE (not a demonstration)"; exit 1; fi
 if [ $RC2 -ne 0 ]; then echo "$P-$N: DEMO-FAILS-ON-PRISTINE"; tail -5 $LOG.demo_pristine; exit 1; fi
